@@ -134,18 +134,18 @@ Proof.
   eapply Ha; eauto.
 Qed.
 
-Lemma J_step : forall l w g,
-  is_shared l = true -> bad_F11b l w g = false ->
-  J w -> J (step l w g).
+(* one call, whatever decides that the output directory exists *)
+Lemma J_step_with : forall l ex w g,
+  is_shared l = true -> inside l (g_client g) && ex && g_force g = false ->
+  J w -> J (fst (step_out_with l ex w g)).
 Proof.
-  intros l w g Hs Hb [Hr Ha Hn Hcl]. unfold step, step_out.
-  unfold bad_F11b in Hb.
-  destruct (negb (g_force g) && dir_exists l w (g_client g)) eqn:Ediff.
+  intros l ex w g Hs Hb [Hr Ha Hn Hcl]. unfold step_out_with.
+  destruct (negb (g_force g) && ex) eqn:Ediff.
   - (* diff path: nothing changes *)
     simpl. constructor; auto.
   - (* direct path *)
-    assert (Hw : dir_exists l w (g_client g) && inside l (g_client g) = false).
-    { destruct (dir_exists l w (g_client g)) eqn:Ed; simpl; [|reflexivity].
+    assert (Hw : ex && inside l (g_client g) = false).
+    { destruct ex; simpl; [|reflexivity].
       destruct (inside l (g_client g)) eqn:Ei; [|reflexivity].
       rewrite andb_true_r in Ediff. simpl in Hb. apply negb_false_iff in Ediff. congruence. }
     rewrite Hw, Hs. cbn [fst]. constructor; cbn [registry aliases clients claimed reg_or_empty aliases_of].
@@ -161,6 +161,13 @@ Proof.
       destruct Hin as [Hin|Hin].
       * subst. rewrite str_eqb_refl. reflexivity.
       * rewrite (Hcl c Hin). apply orb_true_r.
+Qed.
+
+Lemma J_step : forall l w g,
+  is_shared l = true -> bad_F11b l w g = false ->
+  J w -> J (step l w g).
+Proof.
+  intros l w g Hs Hb HJ. unfold step, step_out. apply J_step_with; [exact Hs | exact Hb | exact HJ].
 Qed.
 
 Lemma J_run_from : forall l h w,
